@@ -53,11 +53,11 @@ theorem frameStep_inner (c : Cfg) (h : c.tddl = true) (i : Nat) (m : Mig) :
 
 theorem frameStep_mig_perMig (c : Cfg) (h : c.tddl = true) (hp : c.perMig = true) (i : Nat) (m : Mig) :
     frameStep false (migToks c i m) = some false := by
-  simp [migToks, emitsBlock, h, hp, frameStep_append, frameStep, frameStep_inner c h]
+  simp [migToks, emitsBlock, inExternalTransaction, h, hp, frameStep_append, frameStep, frameStep_inner c h]
 
 theorem frameStep_mig_single (c : Cfg) (h : c.tddl = true) (hp : c.perMig = false) (i : Nat) (m : Mig) :
     frameStep true (migToks c i m) = some true := by
-  simp [migToks, emitsBlock, h, hp, frameStep_inner c h]
+  simp [migToks, emitsBlock, inExternalTransaction, h, hp, frameStep_inner c h]
 
 theorem frameStep_loop_perMig (c : Cfg) (h : c.tddl = true) (hp : c.perMig = true) (i : Nat) (migs : List Mig) :
     frameStep false (loopToks c i migs) = some false := by
@@ -80,10 +80,10 @@ theorem framed_of_tddl (c : Cfg) (migs : List Mig) (dropVT : Bool) (h : c.tddl =
   cases hp : c.perMig
   · have := frameStep_loop_single c h hp 0 migs
     cases dropVT <;>
-      simp [framed, runToks, emitsBlock, h, hp, frameStep_append, frameStep, this]
+      simp [framed, runToks, emitsBlock, inExternalTransaction, h, hp, frameStep_append, frameStep, this]
   · have := frameStep_loop_perMig c h hp 0 migs
     cases dropVT <;>
-      simp [framed, runToks, emitsBlock, h, hp, frameStep_append, frameStep, this]
+      simp [framed, runToks, emitsBlock, inExternalTransaction, h, hp, frameStep_append, frameStep, this]
 
 
 /-! ### counting blocks -/
@@ -128,14 +128,14 @@ theorem countBegin_loop_single (c : Cfg) (h : c.tddl = true) (hp : c.perMig = fa
   induction migs generalizing i with
   | nil => simp [loopToks, totalAuto]
   | cons m r ih =>
-    simp [loopToks, migToks, emitsBlock, h, hp, countBegin_append, countBegin_inner c h, ih, totalAuto]
+    simp [loopToks, migToks, emitsBlock, inExternalTransaction, h, hp, countBegin_append, countBegin_inner c h, ih, totalAuto]
 
 theorem countBegin_loop_perMig (c : Cfg) (h : c.tddl = true) (hp : c.perMig = true) (i : Nat) (migs : List Mig) :
     countBegin (loopToks c i migs) = migs.length + totalAuto migs := by
   induction migs generalizing i with
   | nil => simp [loopToks, totalAuto]
   | cons m r ih =>
-    simp [loopToks, migToks, emitsBlock, h, hp, countBegin_append, countBegin_inner c h, ih, totalAuto,
+    simp [loopToks, migToks, emitsBlock, inExternalTransaction, h, hp, countBegin_append, countBegin_inner c h, ih, totalAuto,
       countBegin_cons_begin, countBegin_cons_other]
     omega
 
@@ -146,7 +146,7 @@ theorem single_block_count (c : Cfg) (migs : List Mig) (dropVT : Bool)
     (h : c.tddl = true) (hp : c.perMig = false) :
     countBegin (runToks c migs dropVT) = 1 + totalAuto migs := by
   cases dropVT <;>
-    simp [runToks, emitsBlock, h, hp, countBegin_append, countBegin_loop_single c h hp,
+    simp [runToks, emitsBlock, inExternalTransaction, h, hp, countBegin_append, countBegin_loop_single c h hp,
       countBegin_cons_begin, countBegin_cons_other] <;> omega
 
 /-- **One block per migration**, split only at that migration's autocommit sections. -/
@@ -154,7 +154,7 @@ theorem per_migration_block_count (c : Cfg) (migs : List Mig) (dropVT : Bool)
     (h : c.tddl = true) (hp : c.perMig = true) :
     countBegin (runToks c migs dropVT) = migs.length + totalAuto migs := by
   cases dropVT <;>
-    simp [runToks, emitsBlock, h, hp, countBegin_append, countBegin_loop_perMig c h hp,
+    simp [runToks, emitsBlock, inExternalTransaction, h, hp, countBegin_append, countBegin_loop_perMig c h hp,
       countBegin_cons_other]
 
 
@@ -229,7 +229,7 @@ theorem blockStep_loop_perMig (c : Cfg) (h : c.tddl = true) (hp : c.perMig = tru
   | cons m r ih =>
     obtain ⟨c1, h1, _⟩ := blockStep_inner c i m
     have hm : loopToks c i (m :: r) = [Tok.begin] ++ (innerToks c i m ++ ([Tok.commit] ++ loopToks c (i+1) r)) := by
-      simp [loopToks, migToks, emitsBlock, h, hp]
+      simp [loopToks, migToks, emitsBlock, inExternalTransaction, h, hp]
     rw [hm]
     have : blockStep cur ([Tok.begin] ++ (innerToks c i m ++ ([Tok.commit] ++ loopToks c (i+1) r))) =
         blockStep c1 ([Tok.commit] ++ loopToks c (i+1) r) := by
@@ -251,7 +251,7 @@ theorem per_migration_one_mig_per_block (c : Cfg) (migs : List Mig) (dropVT : Bo
     oneMigPerBlock (runToks c migs dropVT) = true := by
   unfold oneMigPerBlock
   have hrun : runToks c migs dropVT = loopToks c 0 migs ++ (if dropVT then [Tok.dropVT] else []) := by
-    simp [runToks, emitsBlock, h, hp]
+    simp [runToks, emitsBlock, inExternalTransaction, h, hp]
   rw [hrun, blockStep_append]
   have := blockStep_loop_perMig c h hp 0 migs none
   cases hb : blockStep none (loopToks c 0 migs) with
@@ -300,7 +300,7 @@ theorem noMarkers_loop (c : Cfg) (h : c.tddl = false) (i : Nat) (migs : List Mig
   | nil => rfl
   | cons m r ih =>
     have : loopToks c i (m :: r) = innerToks c i m ++ loopToks c (i+1) r := by
-      simp [loopToks, migToks, emitsBlock, h]
+      simp [loopToks, migToks, emitsBlock, inExternalTransaction, h]
     rw [this, noMarkers_append, noMarkers_inner c h, ih]; rfl
 
 /-- **No markers without transactional DDL**, whatever `transaction_per_migration` says and
@@ -308,7 +308,7 @@ however many autocommit sections the migrations contain. -/
 theorem no_markers_without_tddl (c : Cfg) (migs : List Mig) (dropVT : Bool) (h : c.tddl = false) :
     noMarkers (runToks c migs dropVT) = true := by
   have : runToks c migs dropVT = loopToks c 0 migs ++ (if dropVT then [Tok.dropVT] else []) := by
-    simp [runToks, emitsBlock, h]
+    simp [runToks, emitsBlock, inExternalTransaction, h]
   rw [this, noMarkers_append, noMarkers_loop c h]
   cases dropVT <;> rfl
 
@@ -326,17 +326,17 @@ theorem framingOk_run (c : Cfg) (migs : List Mig) (dropVT : Bool) :
 /-! ### non-vacuity: a concrete run with two migrations, an autocommit section, CREATE and DROP -/
 
 example :
-    runToks ⟨true, true⟩
+    runToks ⟨true, true, false⟩
       [⟨[.plain 1, .auto 1, .plain 1], 1, true⟩, ⟨[], 2, false⟩] true =
     [.begin, .createVT, .running 0, .stmt 0, .commit, .auto 0, .begin, .stmt 0, .version 0, .commit,
      .begin, .running 1, .version 1, .version 1, .commit, .dropVT] := by decide
 
 /-- the recogniser is not trivially true: a script that puts the version statement into a block
 of its own, or two migrations into one block, is rejected -/
-example : framingOk ⟨true, true⟩ [⟨[.plain 1], 1, false⟩]
+example : framingOk ⟨true, true, false⟩ [⟨[.plain 1], 1, false⟩]
     [.begin, .running 0, .stmt 0, .commit, .begin, .version 0, .commit] = false := by decide
-example : framingOk ⟨true, true⟩ [⟨[], 1, false⟩, ⟨[], 1, false⟩]
+example : framingOk ⟨true, true, false⟩ [⟨[], 1, false⟩, ⟨[], 1, false⟩]
     [.begin, .running 0, .version 0, .running 1, .version 1, .commit] = false := by decide
-example : framingOk ⟨false, true⟩ [⟨[], 1, false⟩] [.begin, .running 0, .version 0, .commit] = false := by decide
+example : framingOk ⟨false, true, true⟩ [⟨[], 1, false⟩] [.begin, .running 0, .version 0, .commit] = false := by decide
 
 end C18
